@@ -201,3 +201,139 @@ def gen_alias(rng):
     b = {**a, "rule": rng.choice(RULES), "seed": rng.randrange(1000), "local_search": rng.random() < 0.7, "max_iter": rng.choice([0, 1, 5, 30])}
     a["family"] = b["family"] = "A:shared-input"
     return a, b
+
+
+# ================================================================ round 3
+# ---------------------------------------------------------------- W: work volume of every internal loop, answers by construction
+def gen_work(rng, big=False):
+    """Instances that maximise the iteration count of ONE internal loop at moderate input size and cross 2^7, 2^10, 2^11, 2^12, 10^4, 10^5
+    (2^20) iterations of it.  `expect` also fixes Result.iterations / Result.evaluations where the construction determines them; `port`
+    asks for the exact comparison with the reference port (jobshop_events.ref_run) as well."""
+    out = []
+
+    def chain(n, machines):
+        durs = [rng.randint(0, 5) for _ in range(n)]
+        pre, sched = 0, []
+        for k, d in enumerate(durs):
+            sched.append([0, k, pre, pre + d])
+            pre += d
+        return [[[k % machines, d] for k, d in enumerate(durs)]], pre, sched
+
+    # (1) dispatch loop `for _ in range(total_ops)` and the validation loop: one job of n operations (ready list of length 1)
+    for n in (130, 1030, 2050, 4100) + ((10**4 + 1, 10**5 + 1) if big else (10**4 + 1,)):
+        jobs, mk, sched = chain(n, 3)
+        out.append(_base(rng, jobs, local_search=False, nocoq=True, family=f"W:dispatch-steps-{n}",
+                         expect={"objective": mk, "schedule": sched, "iterations": 0, "evaluations": 1}, work={"dispatch_steps": n}))
+    # (2) the scan over jobs inside one dispatch step / the ready list: n single-operation jobs on their own machines (quadratic)
+    for n in (130, 1030, 2050, 4100) + ((10**4 + 1,) if big else ()):
+        durs = [rng.randint(0, 9) for _ in range(n)]
+        out.append(_base(rng, [[[j, d]] for j, d in enumerate(durs)], rule=rng.choice(["fifo", "spt", "lpt", "mwkr"]), local_search=False, nocoq=True,
+                         family=f"W:ready-scan-{n}", work={"ready_list": n, "dispatch_steps": n},
+                         expect={"objective": max(durs), "schedule": [[j, 0, 0, d] for j, d in enumerate(durs)], "iterations": 0, "evaluations": 1}))
+    # (3) local-search passes: every machine holds one operation, so every pass is skipped and the loop runs max_iter times
+    for it in (130, 1030, 2050, 4100, 10**4 + 1, 10**5 + 1) + ((2**20 + 2,) if big else ()):
+        durs = [rng.randint(0, 9) for _ in range(3)]
+        out.append(_base(rng, [[[j, d]] for j, d in enumerate(durs)], max_iter=it, nocoq=it > 10**4 + 1, family=f"W:ls-passes-{it}", port=it <= 10**5 + 1,
+                         expect={"objective": max(durs), "schedule": [[j, 0, 0, d] for j, d in enumerate(durs)], "iterations": it, "evaluations": 1},
+                         work={"ls_passes": it}))
+    # (3b) passes that are mostly skipped with a few real ones in between (no_improve only counts the real ones): exact reference = port
+    for it in (1500, 5000) + ((50000,) if big else ()):
+        jobs = [[[0, rng.randint(1, 4)], [1 + j, rng.randint(0, 4)]] for j in range(2)] + [[[3 + j, rng.randint(0, 3)]] for j in range(rng.randint(8, 30))]
+        out.append(_base(rng, jobs, max_iter=it, family=f"W:ls-passes-mixed-{it}", port=True, nocoq=it > 5000, work={"ls_passes": it}))
+    # (4) objective evaluations: n one-operation jobs on ONE machine: every neighbour has the same makespan (the sum), nothing is accepted,
+    #     each pass tries all n - 1 adjacent swaps and the search stops after max_no_improve = 100 passes: evaluations = 1 + 100 (n - 1)
+    for n in (3, 12, 22, 42) + ((102,) if big else ()):
+        durs = [rng.randint(0, 6) for _ in range(n)]
+        out.append(_base(rng, [[[0, d]] for d in durs], max_iter=rng.choice([100, 101, 1000]), nocoq=n > 12, family=f"W:evaluations-{1 + 100 * (n - 1)}", port=n <= 42,
+                         expect={"objective": sum(durs), "iterations": 100, "evaluations": 1 + 100 * (n - 1)},
+                         work={"evaluations": 1 + 100 * (n - 1), "no_improve": 100, "pairs_per_pass": n - 1}))
+    # (5) adjacent pairs tried in ONE pass
+    for n in (130,) + ((300,) if big else ()):
+        durs = [rng.randint(0, 6) for _ in range(n)]
+        out.append(_base(rng, [[[0, d]] for d in durs], max_iter=1, nocoq=True, family=f"W:pairs-in-a-pass-{n - 1}",
+                         expect={"objective": sum(durs), "iterations": 1, "evaluations": n}, work={"pairs_per_pass": n - 1, "evaluations": n}))
+    # (6) steps of ONE rebuild (and its scan over all operations, and the scan of a pass): one job of n operations over n / 2 machines, two per
+    #     machine, so every pass does exactly one rebuild; the job order forces the schedule
+    for n in (130, 1030, 4100) + ((10**4 + 2,) if big else ()):
+        jobs, mk, sched = chain(n, n // 2)
+        out.append(_base(rng, jobs, max_iter=2, nocoq=True, family=f"W:rebuild-steps-{n}",
+                         expect={"objective": mk, "schedule": sched, "iterations": 2, "evaluations": 3}, work={"rebuild_steps": n, "ops_scan": n}))
+    # (7) many ready operations inside a rebuild (sort of the ready list): 2-stage flow shop with n jobs, one pass
+    for n in (130,) + ((1030,) if big else ()):
+        out.append(_base(rng, [[[0, rng.randint(0, 3)], [1 + j, rng.randint(0, 3)]] for j in range(n)], max_iter=1, nocoq=True, port=True,
+                         family=f"W:rebuild-ready-{n}", work={"ready_list": n, "rebuild_steps": 2 * n}))
+    return out
+
+
+# ---------------------------------------------------------------- A2: in-place edits between calls, duplicate objects inside one input
+def gen_edit(rng):
+    """(case, edits): call, then edit the caller's jobs object IN PLACE (same outer object, often same length), call again; the second answer
+    must equal the answer of a fresh call on a deep copy of the edited input.  edits = list of (kind, j, k, value)."""
+    c = _small(rng)
+    c["shape"] = rng.choice(["list_tuple", "list_list", "list_list", "list_tuple"])
+    edits = []
+    for _ in range(rng.choice([1, 1, 2, 3])):
+        r = rng.random()
+        j = rng.randrange(len(c["jobs"]))
+        k = rng.randrange(len(c["jobs"][j]))
+        if r < 0.35:
+            edits.append(("dur", j, k, rng.choice([0, 1, 2, 5, 9])))         # same lengths, same ids of the containers
+        elif r < 0.5:
+            edits.append(("mach", j, k, rng.randrange(3)))
+        elif r < 0.65:
+            edits.append(("swap_jobs", j, rng.randrange(len(c["jobs"])), 0))  # same length, same objects, other order
+        elif r < 0.8:
+            edits.append(("append_op", j, 0, [rng.randrange(3), rng.randint(0, 5)]))
+        elif r < 0.9:
+            edits.append(("append_job", 0, 0, [[rng.randrange(3), rng.randint(0, 5)]]))
+        else:
+            edits.append(("del_op", j, k, 0))
+    c["family"] = "A2:in-place-edit"
+    return c, edits
+
+
+def gen_duplicates(rng):
+    """equal jobs are THE SAME object (jobs = [J, J, K]) and equal operations the same tuple: a cache keyed by id() must not confuse them"""
+    c = _small(rng)
+    if len(c["jobs"]) >= 2:
+        a, b = rng.sample(range(len(c["jobs"])), 2)
+        c["jobs"][b] = [list(o) for o in c["jobs"][a]]
+    if rng.random() < 0.5:
+        c["jobs"].append([list(o) for o in c["jobs"][0]])
+    c["shape"] = rng.choice(["shared_objects", "shared_objects", "shared_objects_list"])
+    c["family"] = "A2:duplicate-objects"
+    return c
+
+
+# ---------------------------------------------------------------- X: float extremes
+def gen_float_mix(rng):
+    """integral floats next to ints (33.0 vs 33), negative zero, float progress_interval / seed: the answer must be the answer of the all-int call"""
+    c = _small(rng)
+    c["float_mask"] = [[rng.random() < 0.5 for _ in job] for job in c["jobs"]]
+    if rng.random() < 0.3:
+        k = rng.choice([2**30, 2**44, 10**6])
+        for job in c["jobs"]:
+            for o in job:
+                o[1] *= k
+    if rng.random() < 0.3:
+        c["cb_k"], c["interval"], c["float_interval"] = rng.choice([2, 3, 50]), rng.choice([1, 2, 3]), True
+    if rng.random() < 0.2:
+        c["float_seed"] = True
+    c["family"] = "X:int-vs-integral-float"
+    return c
+
+
+def gen_nonfinite(rng):
+    """NaN / inf durations and finite ones whose sums overflow to inf: outside the property (finite data); run observation-only"""
+    c = _small(rng)
+    kind = rng.choice(["nan", "inf", "overflow"])
+    ops = [(j, k) for j, job in enumerate(c["jobs"]) for k in range(len(job))]
+    c["special"] = {}
+    for (j, k) in rng.sample(ops, min(len(ops), rng.choice([1, 1, 2]))):
+        c["special"][f"{j},{k}"] = {"nan": "nan", "inf": "inf", "overflow": "1e308"}[kind]
+    if kind == "overflow" and len(c["special"]) < 2 and len(ops) >= 2:
+        j, k = ops[0] if f"{ops[0][0]},{ops[0][1]}" not in c["special"] else ops[1]
+        c["special"][f"{j},{k}"] = "1e308"
+    c["family"] = "X:non-finite-" + kind
+    c["nocoq"] = True
+    return c
